@@ -242,9 +242,13 @@ theorem fileStep_executed (cfg : Cfg) (W : World C) (dn : Sched) (P : PassI C σ
       · have hy : EInv (LRes.st' (newLoop cfg W dn P k fuel rid x (x.disk.getD k default))) ∧
             (LRes.st' (newLoop cfg W dn P k fuel rid x (x.disk.getD k default))).side.curPass = P.key := by
           unfold newLoop
+          have hr : EInv (fmtStep W P x k (x.disk.getD k default)).1 ∧ (fmtStep W P x k (x.disk.getD k default)).1.side.curPass = P.key := by
+            unfold EInv; rw [fmtStep_side]; exact h
           split
-          · exact h
-          · exact fileLoop_executed cfg W dn P k _ fuel rid _ 0 x h.1 h.2
+          · exact hr
+          · split
+            · exact hr
+            · exact fileLoop_executed cfg W dn P k _ fuel rid _ 0 _ hr.1 hr.2
         generalize newLoop cfg W dn P k fuel rid x (x.disk.getD k default) = r at hy ⊢
         rcases r with ⟨y, rid'⟩ | ⟨e, y⟩
         · simp only [LRes.st'] at hy
